@@ -171,7 +171,7 @@ def gen_call(lib, k, call):
         return L
     if f.get("cls"):
         name = "%s%%%s" % (call["obj"], lib_un_camel(f["name"]))
-    if r["kind"] == "val":
+    if r["kind"] in ("val", "ptr_scalar"):
         D.append("%s :: vfret" % ftype(r["T"]))
     elif r["kind"] in ("cstr", "str_val", "str_cref", "str_ptr_own"):
         D.append("character(len=:), allocatable :: vfret")
@@ -195,7 +195,7 @@ def gen_call(lib, k, call):
     else:
         L.append("    vfret = %s(%s)" % (name, ", ".join(A)))
     L.append("    call vfo_begin(%d)" % k)
-    if r["kind"] == "val":
+    if r["kind"] in ("val", "ptr_scalar"):
         L.append("    " + prn(r["T"], "ret", "vfret"))
     elif r["kind"] in ("cls_ptr", "cls_val"):
         L.append("    call vfo_b('associated', %s%%associated())" % call["res_obj"])
